@@ -157,6 +157,107 @@ fn run_started_path(bodies: &mut Bodies, ms: &[String], path: &[J]) -> J {
   json!({ "evs": evs })
 }
 
+/// What is logged of a path with overlapping requests, before the reply bodies are numbered.
+enum Logged {
+  Begin(usize, J),
+  End(usize, Option<Vec<u8>>),
+  Probe(Vec<Option<Vec<u8>>>),
+}
+
+fn raw_send(c: &mut Client, op: &J, slow_n: u64) -> Option<Vec<u8>> {
+  let js = "application/json";
+  let r = match op["op"].as_str().unwrap_or("") {
+    "add" => c.request("POST", "/definitions/add", js, json!({"content": model_b64(op["m"].as_str().unwrap())}).to_string().as_bytes()),
+    "replace" => c.request("POST", "/definitions/replace", js, json!({"content": model_b64(op["m"].as_str().unwrap())}).to_string().as_bytes()),
+    "remove" => c.request("POST", "/definitions/remove", js, json!({"namespace": op["ns"], "name": op["nm"]}).to_string().as_bytes()),
+    "clear" => c.request("POST", "/definitions/clear", "", b""),
+    "deploy" => c.request("POST", "/definitions/deploy", "", b""),
+    "eval" => c.request("POST", &format!("/evaluate/{}/v", op["nm"].as_str().unwrap()), "text/plain", b"{}"),
+    "slow" => c.request("POST", &format!("/evaluate/{}/slow", op["nm"].as_str().unwrap()), "text/plain", format!("{{n: {}}}", slow_n).as_bytes()),
+    other => tool_error(&format!("unknown concurrent op {}", other)),
+  };
+  r.map(|r| r.body)
+}
+
+/// One path with overlapping requests: a set-up made request by request, then rounds in each of which a slow
+/// evaluation (`slow` of a model name, about `slow_ms` long) is under way on one connection while a request from
+/// `others` is sent on a second connection; a probe after every round. Every request is logged at its begin (before
+/// the first byte is sent) and at its end (after the reply has been read), in the order in which that happened.
+fn run_concurrent_path(port: u16, bodies: &mut Bodies, setup: &[J], rounds: &[(J, J)], slow_n: u64) -> J {
+  use std::sync::{Arc, Mutex};
+  let log: Arc<Mutex<Vec<Logged>>> = Arc::new(Mutex::new(vec![]));
+  let mut main = Client::new(port);
+  let mut id = 0usize;
+  let push = |log: &Arc<Mutex<Vec<Logged>>>, e: Logged| log.lock().unwrap().push(e);
+  for op in setup {
+    id += 1;
+    push(&log, Logged::Begin(id, op.clone()));
+    let b = raw_send(&mut main, op, slow_n);
+    push(&log, Logged::End(id, b));
+  }
+  let probe_raw = |c: &mut Client| -> Vec<Option<Vec<u8>>> { NAMES.iter().map(|nm| c.request("POST", &format!("/evaluate/{}/v", nm), "text/plain", b"{}").map(|r| r.body)).collect() };
+  let pr = probe_raw(&mut main);
+  push(&log, Logged::Probe(pr));
+  for (slow, other) in rounds {
+    id += 1;
+    let slow_id = id;
+    id += 1;
+    let other_id = id;
+    let (log_a, slow_op) = (Arc::clone(&log), slow.clone());
+    let a = std::thread::spawn(move || {
+      let mut ca = Client::new(port);
+      log_a.lock().unwrap().push(Logged::Begin(slow_id, slow_op.clone()));
+      let b = raw_send(&mut ca, &slow_op, slow_n);
+      log_a.lock().unwrap().push(Logged::End(slow_id, b));
+    });
+    std::thread::sleep(std::time::Duration::from_millis(60));
+    push(&log, Logged::Begin(other_id, other.clone()));
+    let b = raw_send(&mut main, other, slow_n);
+    push(&log, Logged::End(other_id, b));
+    let _ = a.join();
+    let pr = probe_raw(&mut main);
+    push(&log, Logged::Probe(pr));
+  }
+  let logged = std::mem::take(&mut *log.lock().unwrap());
+  let mut evs = vec![];
+  for e in logged {
+    evs.push(match e {
+      Logged::Begin(id, op) => {
+        let mut o = op.clone();
+        o["ev"] = json!("begin");
+        o["id"] = json!(id);
+        o
+      }
+      Logged::End(id, b) => json!({"ev": "end", "id": id, "b": bodies.add(b.as_deref())}),
+      Logged::Probe(v) => json!({"ev": "probe", "probe": v.iter().map(|b| bodies.add(b.as_deref())).collect::<Vec<_>>()}),
+    });
+  }
+  json!({ "evs": evs })
+}
+
+fn random_concurrent_scenario(rng: &mut Rng) -> (Vec<J>, Vec<(J, J)>) {
+  let setup = vec![json!({"op": "clear"}), json!({"op": "add", "m": "A"}), json!({"op": "add", "m": "D"}), json!({"op": "deploy"})];
+  let mut rounds = vec![];
+  for _ in 0..3 {
+    let slow = json!({"op": "slow", "nm": rng.pick(&["n1", "n3"])});
+    let m = ALPHABET[rng.below(6) as usize].0;
+    let other = match rng.below(8) {
+      0 | 1 => json!({"op": "add", "m": m}),
+      2 => json!({"op": "replace", "m": m}),
+      3 => json!({"op": "remove", "ns": rng.pick(NAMESPACES), "nm": rng.pick(NAMES)}),
+      4 => json!({"op": "clear"}),
+      5 | 6 => json!({"op": "deploy"}),
+      _ => json!({"op": "eval", "nm": rng.pick(NAMES)}),
+    };
+    rounds.push((slow, other));
+    // between the rounds: mostly a deploy, so that the next slow evaluation finds something to evaluate
+    if rng.below(3) > 0 {
+      rounds.push((json!({"op": "eval", "nm": rng.pick(NAMES)}), json!({"op": "deploy"})));
+    }
+  }
+  (setup, rounds)
+}
+
 fn random_path(rng: &mut Rng, len: usize) -> Vec<J> {
   let kinds = ["bad-json", "bad-base64", "bad-utf8", "bad-xml", "no-content", "no-name", "no-namespace", "unknown-path", "bad-input", "empty-body"];
   let mut p = vec![];
@@ -211,7 +312,15 @@ pub fn check(mut ctx: Ctx, replay: Option<J>) -> ! {
   let mut client = Client::new(server.port);
   if let Some(r) = replay {
     let case = &r["case"];
-    if case.get("path").is_some() {
+    if case.get("concurrent").is_some() {
+      let setup: Vec<J> = case["concurrent"]["setup"].as_array().cloned().unwrap_or_default();
+      let rounds: Vec<(J, J)> = case["concurrent"]["rounds"].as_array().map(|a| a.iter().map(|r| (r[0].clone(), r[1].clone())).collect()).unwrap_or_default();
+      let mut cb = Bodies::new();
+      let path = run_concurrent_path(server.port, &mut cb, &setup, &rounds, case["slow_n"].as_u64().unwrap_or(20000));
+      for (_, at) in run_trace_c(&tlc, &[path.clone()], &cb, "replay") {
+        ctx.reject(&["http-overlap:replay".to_string()], json!({"concurrent": case["concurrent"], "slow_n": case["slow_n"], "events": path["evs"]}), &format!("overlapping requests: event {} is not explained", at));
+      }
+    } else if case.get("path").is_some() {
       let mut bodies = Bodies::new();
       let ops: Vec<J> = case["path"].as_array().cloned().unwrap_or_default();
       let p = if ops.first().map_or(false, |o| o["op"] == "start") {
@@ -297,6 +406,56 @@ pub fn check(mut ctx: Ctx, replay: Option<J>) -> ! {
   let total = paths.len();
   judge_paths(&mut ctx, &tlc, &paths, &ops_of, &bodies, "main");
   ctx.cov("traces_validated_against_impl", json!(total));
+  // --- overlapping requests: a slow evaluation under way while another request arrives (Trace_C18c: every request takes
+  // effect at some moment between its begin and its end)
+  {
+    // the size of the slow evaluation: about 400 ms here and now
+    let mut b = Bodies::new();
+    for op in [json!({"op": "clear"}), json!({"op": "add", "m": "A"}), json!({"op": "deploy"})] {
+      send(&mut client, &mut b, &op);
+    }
+    let t0 = std::time::Instant::now();
+    let probe_n = 3000u64;
+    let _ = raw_send(&mut client, &json!({"op": "slow", "nm": "n1"}), probe_n);
+    let ms = t0.elapsed().as_millis().max(1) as u64;
+    let slow_n = (probe_n * 400 / ms).clamp(3000, 600_000);
+    let n_conc = if quick { 10 } else { 80 };
+    let mut cb = Bodies::new();
+    let mut cpaths = vec![];
+    let mut scen = vec![];
+    for _ in 0..n_conc {
+      let (setup, rounds) = random_concurrent_scenario(&mut rng);
+      cpaths.push(run_concurrent_path(server.port, &mut cb, &setup, &rounds, slow_n));
+      scen.push(json!({"setup": setup, "rounds": rounds.iter().map(|(a, b)| json!([a, b])).collect::<Vec<_>>()}));
+    }
+    // anti-vacuity: the reply to an overlapped request flipped must be rejected
+    {
+      let mut bad = cpaths[0].clone();
+      let err_body = cb.add(Some(b"{\"errors\":[{\"details\":\"x\"}]}"));
+      let ok_body = cb.add(Some(b"{\"data\":{\"status\":\"x\"}}"));
+      let evs = bad["evs"].as_array_mut().unwrap();
+      // the end event of the deploy of the set-up (request 4)
+      let k = evs.iter().position(|e| e["ev"] == "end" && e["id"] == 4).unwrap_or_else(|| tool_error("no deploy in the set-up"));
+      let cur = evs[k]["b"].as_u64().unwrap() as usize;
+      let cur_text = crate::codec::from_cps(&cb.list[cur - 1]["cp"]);
+      evs[k]["b"] = json!(if cur_text.contains("\"data\"") { err_body } else { ok_body });
+      if run_trace_c(&tlc, &[bad], &cb, "ccorrupt").is_empty() {
+        tool_error("self-test failed: Trace_C18c accepted a corrupted trace");
+      }
+    }
+    let rejects = run_trace_c(&tlc, &cpaths, &cb, "conc");
+    for (pi, at) in rejects {
+      let at: usize = at.parse().unwrap_or(1);
+      let evs = cpaths[pi]["evs"].as_array().cloned().unwrap_or_default();
+      let e = evs.get(at.saturating_sub(1)).cloned().unwrap_or(J::Null);
+      let body = e["b"].as_u64().map(|b| crate::codec::from_cps(&cb.list[b as usize - 1]["cp"])).unwrap_or_default();
+      let begun = evs.iter().find(|x| x["ev"] == "begin" && x["id"] == e["id"]).cloned().unwrap_or(J::Null);
+      ctx.reject(&[format!("http-overlap:{}", begun["op"].as_str().unwrap_or(e["ev"].as_str().unwrap_or("?")))], json!({"concurrent": scen[pi], "slow_n": slow_n, "events": evs, "rejected_event": at}),
+        &format!("overlapping requests: no choice of moments at which the requests take effect explains event {} ({} of request {}: {}); reply: {}", at, e["ev"], e["id"], begun, body.chars().take(200).collect::<String>()));
+    }
+    ctx.cov("request_sequences_with_overlapping_requests", json!(n_conc));
+    ctx.cov("slow_evaluation_size", json!(slow_n));
+  }
   // --- rendering of values
   let gcfg = if quick { "Gen_C18v.cfg" } else { "Gen_C18vDeep.cfg" };
   let gv = tlc.run(Run::new("Gen_C18v", gcfg).workers(1).timeout(600));
@@ -477,6 +636,20 @@ fn run_trace(tlc: &Tlc, paths: &[J], bodies: &Bodies, tag: &str) -> Vec<(usize, 
     }
   });
   rejects
+}
+
+/// Trace_C18c over paths with overlapping requests: (path index, first event no choice of linearisation points explains).
+fn run_trace_c(tlc: &Tlc, paths: &[J], bodies: &Bodies, tag: &str) -> Vec<(usize, String)> {
+  let bfile = tlc.write_ndjson(&format!("bodies_{}.ndjson", tag), &bodies.list);
+  let file = tlc.write_ndjson(&format!("paths_{}.ndjson", tag), paths);
+  let out = tlc.run(Run::new("Trace_C18c", "Trace_C18c.cfg").env("TRACE", &file.to_string_lossy()).env("BODIES", &bfile.to_string_lossy()).deque().timeout(1200).tag(&format!("_{}", tag)));
+  if !out.ok {
+    tool_error(&format!("Trace_C18c failed: {}", out.error_text));
+  }
+  if out.counters("CONSUMED").first().copied() != Some(paths.len() as i64) {
+    tool_error("Trace_C18c did not report completion");
+  }
+  out.rejects().into_iter().map(|(p, at)| (p - 1, at)).collect()
 }
 
 fn judge_paths(ctx: &mut Ctx, tlc: &Tlc, paths: &[J], ops_of: &[Vec<J>], bodies: &Bodies, tag: &str) {
